@@ -9,8 +9,12 @@ package core
 // viper instance, calls the exported core.Start with its own ApplicationContext (zap observer logger) and a closed
 // exit channel, and prints
 //
-//	RET <rc> valid=<bool> configured=<coordinators that logged "configuring"> started=<coordinators that logged "starting">
+//	RET <rc> valid=<bool> configured=<coordinators that logged "configuring"> started=<coordinators that logged "starting"> listening=<n>[@port,...]
 //	PANIC <kind>            (kind: string | error | zap | other) when a panic escapes core.Start
+//
+// listening = the TCP sockets in state LISTEN that this process owns after core.Start returned and did not own before
+// (read from /proc/self/fd and /proc/net/tcp{,6}; sockets that a still running Serve goroutine is about to close are given
+// a grace period).  This is the direct observation of "listeners opened"; it does not depend on any log line.
 //
 // The ApplicationContext that Start is handed is part of the case (token X:<state>, default fresh):
 //
@@ -251,6 +255,71 @@ func vcfgSetup(dir string, toks []string, kp vcfgKeypair) {
 	vcfgLoad(dir, toks)
 }
 
+// vcfgListening returns the listening TCP sockets owned by this process: socket inode -> local port.
+func vcfgListening() map[string]string {
+	mine := map[string]bool{}
+	fds, err := os.ReadDir("/proc/self/fd")
+	if err != nil {
+		panic("cannot read /proc/self/fd: " + err.Error())
+	}
+	for _, fd := range fds {
+		if target, err := os.Readlink("/proc/self/fd/" + fd.Name()); err == nil && strings.HasPrefix(target, "socket:[") {
+			mine[strings.TrimSuffix(strings.TrimPrefix(target, "socket:["), "]")] = true
+		}
+	}
+	out := map[string]string{}
+	for _, table := range []string{"/proc/net/tcp", "/proc/net/tcp6"} {
+		b, err := os.ReadFile(table)
+		if err != nil {
+			continue
+		}
+		for _, line := range strings.Split(string(b), "\n")[1:] {
+			f := strings.Fields(line)
+			if len(f) < 10 || f[3] != "0A" || !mine[f[9]] { // 0A = TCP_LISTEN
+				continue
+			}
+			port := f[1]
+			if i := strings.LastIndex(port, ":"); i >= 0 {
+				if n, err := strconv.ParseUint(port[i+1:], 16, 32); err == nil {
+					port = strconv.FormatUint(n, 10)
+				}
+			}
+			out[f[9]] = port
+		}
+	}
+	return out
+}
+
+// vcfgNewListeners: the listening sockets that are not in `before`, polled until none is left or the grace period is over.
+func vcfgNewListeners(before map[string]string, grace time.Duration) []string {
+	deadline := time.Now().Add(grace)
+	for {
+		var ports []string
+		for inode, port := range vcfgListening() {
+			if _, old := before[inode]; !old {
+				ports = append(ports, port)
+			}
+		}
+		if len(ports) == 0 || time.Now().After(deadline) {
+			sort.Strings(ports)
+			return ports
+		}
+		time.Sleep(5 * time.Millisecond)
+	}
+}
+
+func vcfgListeningField(before map[string]string, somethingStarted bool) string {
+	grace := 300 * time.Millisecond
+	if somethingStarted {
+		grace = 3 * time.Second // http.Server.Close may run before the Serve goroutine has taken over the listener
+	}
+	ports := vcfgNewListeners(before, grace)
+	if len(ports) == 0 {
+		return "listening=0"
+	}
+	return fmt.Sprintf("listening=%d@%s", len(ports), strings.Join(ports, ","))
+}
+
 func vcfgClosedExit() chan os.Signal {
 	exit := make(chan os.Signal, 1)
 	close(exit) // a configuration that starts is shut down at once
@@ -282,6 +351,7 @@ func vcfgRunCase(scratch string, idx int, line string, kp vcfgKeypair) (result s
 	level := zap.NewAtomicLevelAt(zapcore.DebugLevel)
 	app := &protocol.ApplicationContext{Logger: zap.New(core), LogLevel: &level}
 	pre := ""
+	atEntry := vcfgListening()
 	switch ctx {
 	case "fresh":
 	case "preset":
@@ -297,12 +367,14 @@ func vcfgRunCase(scratch string, idx int, line string, kp vcfgKeypair) (result s
 		}()
 		pre = fmt.Sprintf(" pre=%s/%v", prc, app.ConfigurationValid)
 		logs.TakeAll()
+		vcfgNewListeners(atEntry, 3*time.Second) // let the earlier Start's listeners go away
 	default:
 		return "BADCASE context " + ctx
 	}
 
 	vcfgSetup(dir, mainToks, kp)
 	exit := vcfgClosedExit()
+	before := vcfgListening()
 
 	defer func() {
 		if r := recover(); r != nil {
@@ -321,8 +393,10 @@ func vcfgRunCase(scratch string, idx int, line string, kp vcfgKeypair) (result s
 		}
 	}()
 	rc := Start(app, exit)
-	return fmt.Sprintf("RET %d valid=%v configured=%s started=%s%s", rc, app.ConfigurationValid,
-		strings.Join(vcfgCoordinators(logs, "configuring"), ","), strings.Join(vcfgCoordinators(logs, "starting"), ","), pre)
+	started := vcfgCoordinators(logs, "starting")
+	return fmt.Sprintf("RET %d valid=%v configured=%s started=%s %s%s", rc, app.ConfigurationValid,
+		strings.Join(vcfgCoordinators(logs, "configuring"), ","), strings.Join(started, ","),
+		vcfgListeningField(before, app.ConfigurationValid || len(started) > 0 || rc == 0), pre)
 }
 
 func TestVerifProbeConfig(t *testing.T) {
